@@ -6,14 +6,19 @@ from sx.api import assume, check, cover, untraced, pick, pickbool
 
 PROPERTY = 'C11'
 LABELS = ['C11.base_creates', 'C11.creation_iff_invalid', 'C11.slot_nearest', 'C11.instantiate_inherited',
-          'C11.allow_None_recomputed', 'C11.none_default_on_type_change']
+          'C11.allow_None_recomputed', 'C11.none_default_on_type_change', 'C11.no_class_with_invalid_default']
 EXPLANATION = ("Harness c11.prog: hierarchies (A>B, A>M>B with M not declaring, diamond A>(L,R)>J) in which each declaring level "
                "specifies a symbolic subset of {default, bounds, allow_None, instantiate, constant, doc, precedence, label} with "
                "symbolic values, optionally changing the Parameter type along the chain (Number>Integer, Parameter>Integer), created "
                "by a class statement or by add_parameter; the resulting Parameter is compared slot by slot with an independent MRO "
                "resolver and class creation must fail exactly when the merged non-None default violates the merged bounds/type.")
+EXPLANATION += (" Harness c11.root: a first declaration (no ancestor declares the Parameter; class statement, add_parameter, or a "
+                "subclass of classes that skip it) of Integer / List / Tuple / NumericTuple / String with or without an explicit "
+                "default and with symbolic bounds / length / regex choice: whenever the class comes into existence its non-None "
+                "default satisfies its own constraints (the type's default is the 'merged default' here), and a second level "
+                "that only narrows the constraint fails exactly when the inherited default violates it.")
 STUBS = []
-OUTSIDE = ["Parameter types other than Parameter/Number/Integer", "more than 3 declaring levels", "computed (callable) slot defaults other "
+OUTSIDE = ["Parameter types other than Parameter/Number/Integer (slot merge) and Integer/List/Tuple/NumericTuple/String (root declarations)", "more than 3 declaring levels", "computed (callable) slot defaults other "
            "than those of these types", "whether constant=True forces instantiate (not asserted)"]
 ASSUMPTIONS = ["each Parameter constructs on its own (its own declared/default `default` satisfies its own declared bounds)",
                "lo <= hi for declared bounds"]
@@ -167,6 +172,116 @@ def prog(shape: int, tc: int, route: int, nattr: int, s2inc: bool, inc_lo2: bool
         check('C11.allow_None_recomputed', px.allow_None == bool(own_allow_none), dict(info, got=px.allow_None, exp=bool(own_allow_none)))
 
 
+RTYPES = ['Integer', 'List', 'Tuple', 'NumericTuple', 'String']
+
+
+def _rvalid(t, d, lo, hi, sb):
+    """independent validity predicate of a non-None default for the root types"""
+    if not sb:
+        return True
+    if t == 0:
+        return lo <= d <= hi
+    if t == 1:
+        return lo <= len(d) <= hi
+    if t in (2, 3):
+        return len(d) == lo
+    return len(d) >= 1 and all(c == 'a' for c in d)       # regex 'a+' (\Z-anchored by param)
+
+
+def root(t: int, route: int, sd: bool, d: int, sb: bool, lo: int, hi: int, s2: bool, lo2: int, hi2: int) -> None:
+    t = pick(t, 0, 4)
+    sd, sb, s2 = pickbool(sd), pickbool(sb), pickbool(s2)
+    assume(0 <= d <= 3)
+    d = pick(d, 0, 3)
+
+    def mk(sd, sb, lo, hi):
+        kw = {}
+        if t == 0:
+            if sd:
+                kw['default'] = d
+            if sb:
+                kw['bounds'] = (lo, hi)
+            return param.Integer(**kw)
+        if t == 1:
+            if sd:
+                kw['default'] = [0] * d
+            if sb:
+                kw['bounds'] = (lo, hi)
+            return param.List(**kw)
+        if t in (2, 3):
+            if sd:
+                kw['default'] = (0,) * d
+            if sb:
+                kw['length'] = lo
+            return (param.Tuple if t == 2 else param.NumericTuple)(**kw)
+        if sd:
+            kw['default'] = 'a' * d
+        if sb:
+            kw['regex'] = 'a+'
+        return param.String(**kw)
+    if sb and t in (0, 1):
+        assume(lo <= hi)
+    if t in (1, 2, 3):
+        assume(lo >= 0 and lo2 >= 0)
+    info = {'type': RTYPES[t], 'route': route, 'default_given': sd, 'constraint_given': sb}
+    try:
+        if route == 0:
+            class B(param.Parameterized):
+                x = mk(sd, sb, lo, hi)
+        elif route == 1:
+            class B(param.Parameterized):
+                pass
+            B.param.add_parameter('x', mk(sd, sb, lo, hi))
+        else:
+            class A0(param.Parameterized):
+                y = param.Integer(default=0)
+
+            class A1(A0):
+                pass
+
+            class B(A1):
+                x = mk(sd, sb, lo, hi)
+        ok = True
+    except (ValueError, TypeError, RuntimeError):
+        ok = False
+    tdef = [0, [], (0, 0), (0, 0), ''][t]
+    dv = ([d, [0] * d, (0,) * d, (0,) * d, 'a' * d][t]) if sd else tdef
+    exp_ok = _rvalid(t, dv, lo, hi, sb)
+    if t in (2, 3) and (not sb or (sd and d > 0)):
+        exp_ok = True           # documented: the length is determined by the initial (non-empty) default, if any
+    check('C11.no_class_with_invalid_default', ok == exp_ok, dict(info, created=ok, default=repr(dv), lo=lo, hi=hi))
+    if not ok:
+        return
+    got = B.param.x.default
+    check('C11.slot_nearest', got == dv, dict(info, attr='default', got=repr(got), exp=repr(dv)))
+    if not s2 or t == 4:
+        return
+    # a second level that leaves the default unspecified and only narrows the constraint
+    if t in (0, 1):
+        assume(lo2 <= hi2)
+    try:
+        p2 = mk(False, True, lo2, hi2)
+    except (ValueError, TypeError):
+        assume(False)           # the redeclaration must construct on its own (its type's default satisfies its constraint)
+    try:
+        class C(B):
+            x = p2
+        ok2 = True
+    except (ValueError, TypeError, RuntimeError):
+        ok2 = False
+    if t in (2, 3):
+        # Tuple length is derived from the default when unspecified; a redeclared length must agree with the inherited default
+        exp2 = len(dv) == lo2
+    else:
+        exp2 = _rvalid(t, dv, lo2, hi2, True)
+    check('C11.creation_iff_invalid', ok2 == exp2, dict(info, level=2, created=ok2, default=repr(dv), lo2=lo2, hi2=hi2))
+    if ok2:
+        check('C11.slot_nearest', C.param.x.default == dv, dict(info, attr='default', level=2))
+
+
+root.ranges = lambda consts: dict(t=(0, 4), d=(0, 3), lo=(-1, 4), hi=(-1, 4), lo2=(-1, 4), hi2=(-1, 4))
+
+
 def shards(tier):
     out = []
     q = tier == 'quick'
@@ -201,6 +316,10 @@ def shards(tier):
                                 c.update(s1b=False, lo1=0, hi1=0)
                         out.append(dict(name='sh%d_tc%d_r%d_%d%d' % (shape, tc, route, s2d, s2b), module='harness.c11', fn='prog',
                                         consts=c, budget_s=60 if q else 600))
+    for t in range(5):
+        for route in range(3):
+            out.append(dict(name='root_t%d_r%d' % (t, route), module='harness.c11', fn='root', consts=dict(t=t, route=route),
+                            budget_s=40 if q else 300))
     return out
 
 
